@@ -95,10 +95,10 @@ T = {
     text="Decided on the expression trees: the numerical and symbolic forms of every bundled solution agree; K_ij is -(1/(2 alpha)) d_t of the module's own gamma_ij (zero shift) for 7 of 9 modules; entry (a, b) of the perturbed-FLRW tensors is built from axes a and b; in the five typable modules every closed form (K, T, rho, p, Ricci and Kretschmann scalars, null expansions) is homogeneous of the scaling weight its role requires.",
     note="Einstein's equations for the matter content and the published closed-form scalars are NOT decided (second derivatives, inverse metrics and simplification of transcendental expressions: computer algebra, not static analysis); the scaling rule is a necessary condition of those clauses only; declared facts: LCDM da/dt = a H, Szekeres dZ/dt = dtZ; 2 modules' K and the modules with dimensionful numerical constants are listed unverified / not typable."),
  "C18": dict(
-    technique="static analysis: token-collision analysis of parser guards vs writer templates with hole alphabets, protocol-order rule, regex group-structure agreement, separator rule, module-state write rule, alias analysis of the merged overview, definite assignment / stale values across restarts (ast, re._parser, dataflow)",
+    technique="static analysis: token-collision analysis of parser guards vs writer templates with hole alphabets, protocol-order rule, writer/parser round trip of iterations.txt by abstract interpretation of the parser on the writer's line templates, level-representative provenance, regex group-structure agreement, separator rule, module-state write rule, alias analysis of the merged overview, definite assignment / stale values across restarts (ast, re._parser, dataflow)",
     category="other", design="DESIGN.md section 9.2 and section 4 C18",
-    text="Format-level clauses decided for all names: no parser guard token can occur in a free hole of another line's template; the restart header is written first; regex groups used exist, are digits where converted and are tested when optional; the key separator is outside the name alphabet; no scan result is cached in module state; per-restart entries are not updated through the merged overview; no stale value crosses restarts.",
-    note="That a scan reports what is on disk, and the field-by-field round trip of iterations.txt, are not decided."),
+    text="Format-level clauses decided for all names: no parser guard token can occur in a free hole of another line's template; the restart header is written first; regex groups used exist, are digits where converted and are tested when optional; every catalogue line parses back, key by key and field by field, to what was stored in memory next to it; the component representing a refinement level is chosen among that level's datasets; the key separator is outside the name alphabet; no scan result is cached in module state; per-restart entries are not updated through the merged overview; no stale value crosses restarts.",
+    note="That a scan reports what is on disk is not decided. The round trip of iterations.txt is decided for the seven line templates (lists instantiated with 0/2 generic elements, holes assumed free of the separators, which the token-collision rule establishes)."),
  "C19": dict(
     technique="static analysis: abstract interpretation of the tensor code (ast) into exact componentwise polynomials over opaque field atoms with per-slot index variance; einsum index-discipline rules; equality with reference index formulas evaluated in the same domain, per reachable configuration (vacuum flag, presence guards)",
     category="other", design="DESIGN.md section 9.2 and section 4 C19",
